@@ -17,9 +17,9 @@ mkdir -p $d $out; [ "$src" = "$PWD/$d" ] || { cp $src/patch.diff $src/demo.py $d
 git -C /tmp/mut/_clean checkout -q --detach $(git -C /repo rev-parse HEAD) 2>/dev/null
 git -C $wt checkout -q -- . && git -C $wt checkout -q --detach $(git -C /repo rev-parse HEAD) && git -C $wt apply $PWD/$d/patch.diff || { echo "$id: patch does not apply"; exit 2; }
 find $wt -name __pycache__ -prune -exec rm -rf {} + 2>/dev/null
-(cd /tmp/mut/_clean && PYTHONDONTWRITEBYTECODE=1 PYTHONPATH=/tmp/mut/_clean timeout 300 /venv/bin/python $OLDPWD/$d/demo.py >/dev/null 2>&1); clean=$?
+(cd /tmp/mut/_clean && PYTHONDONTWRITEBYTECODE=1 PYTHONPATH=/tmp/mut/_clean timeout 900 /venv/bin/python $OLDPWD/$d/demo.py >/dev/null 2>&1); clean=$?
 tests=$(cd $wt && PYTHONPATH=$wt timeout 1200 /venv/bin/python -m pytest -q -p no:cacheprovider --timeout=900 2>&1 | tail -1)
-(cd $wt && PYTHONPATH=$wt timeout 300 /venv/bin/python $OLDPWD/$d/demo.py >/dev/null 2>&1); mutated=$?
+(cd $wt && PYTHONPATH=$wt timeout 900 /venv/bin/python $OLDPWD/$d/demo.py >/dev/null 2>&1); mutated=$?
 res=""
 for c in $checks; do
   o=$(GENLM_REPO=$wt PYTHONPATH=$wt VERIF_OUT=$out timeout 2400 /venv/bin/python harness/check.py $c 2>/dev/null); rc=$?
